@@ -122,6 +122,8 @@ class Track(object):
             if isinstance(chord, list):
                 for c in chord:
                     add_chord(c, duration * 2)
+            elif chord is None:
+                add_item(None, duration)
             else:
                 chord = NoteContainer().from_chord(chord)
                 if tun:
